@@ -13,4 +13,5 @@ def run(ctx, rep):
     textparse.rule_ascii_digit_scanners(ctx, rep, "C10-R7", modules=("regex.parser",))
     regexrules.rule_positions_nonnegative(ctx, rep, "C10-R8")
     textparse.rule_host_parser_text_admitted(ctx, rep, "C10-R9", modules=("regex.parser",), floor=2)
+    regexrules.rule_start_position_inside_subject(ctx, rep, "C10-R10")
     rep.undecided += ["wall-clock time per match"]
